@@ -56,8 +56,7 @@ Proof.
   - apply Rmult_lt_0_compat; [exact HR | now apply rtd_quartic_derivative_pos].
 Qed.
 
-(* ... hence any negative real root equals T: the true root set has exactly one
-   negative real root and _get_negative_real_root returns T on it. *)
+(* ... hence any negative real root equals T ... *)
 Theorem rtd_negative_root_unique :
   forall R0 A B C T I lead w x,
     R0 > 0 -> A > 0 -> B < 0 -> C < 0 -> I <> 0 -> T < 0 ->
@@ -68,18 +67,86 @@ Theorem rtd_negative_root_unique :
     x = T.
 Proof. exact rtd_chain_unique. Qed.
 
+(* ... and the quartic has no root in [0, 1e-9), the extra range the filter
+   r.real < 1e-9  of _get_negative_real_root lets through (repair 874ad35 of
+   defect D23): for T < 0 the resistance is strictly below R0 and
+     p(x) = (R0 - r_t) + R0 x (A + B x + C x^2 (x - 100)) > 0   on [0, 1e-9).
+   Added hypothesis  A + B * 1e-9 >= 0  (IEC 60751: 3.9e-3 - 5.8e-16): it is
+   needed, see rtd_tolerance_condition_cannot_be_dropped. *)
+Theorem rtd_no_root_near_zero :
+  forall R0 A B C T I lead w x,
+    R0 > 0 -> A > 0 -> B < 0 -> C < 0 -> A + B * RTD_ROOT_TOLERANCE >= 0 -> I <> 0 -> T < 0 ->
+    0 <= x < RTD_ROOT_TOLERANCE ->
+    polyval x (rtd_quartic_coefficients A B C R0
+                 (rtd_r_t I lead (wiring_code w)
+                          (current_excitation_voltage I w lead (cvd R0 A B C T)))) > 0.
+Proof. exact rtd_chain_no_root_near_zero. Qed.
+
+(* the same for any resistance below R0, whether or not it is some cvd(T) *)
+Theorem rtd_quartic_positive_near_zero :
+  forall A B C R0 r_t x,
+    R0 > 0 -> B < 0 -> C < 0 -> A + B * RTD_ROOT_TOLERANCE >= 0 ->
+    r_t < R0 -> 0 <= x < RTD_ROOT_TOLERANCE ->
+    rtd_quartic A B C R0 r_t x > 0.
+Proof. exact rtd_quartic_pos_near_zero. Qed.
+
+(* So every real root below the tolerance equals T: the true root set has
+   exactly one entry that passes the filter, and _get_negative_real_root
+   returns T on it. *)
+Theorem rtd_small_root_unique :
+  forall R0 A B C T I lead w x,
+    R0 > 0 -> A > 0 -> B < 0 -> C < 0 -> A + B * RTD_ROOT_TOLERANCE >= 0 -> I <> 0 -> T < 0 ->
+    x < RTD_ROOT_TOLERANCE ->
+    polyval x (rtd_quartic_coefficients A B C R0
+                 (rtd_r_t I lead (wiring_code w)
+                          (current_excitation_voltage I w lead (cvd R0 A B C T)))) = 0 ->
+    x = T.
+Proof. exact rtd_chain_unique_small. Qed.
+
 (* The same with the oracle made explicit: if what polyroots returns lists the
-   negative real roots of the coefficient list it was given, each once, then
-   RtdScaling.scale returns T. *)
+   real roots below the tolerance of the coefficient list it was given, each
+   once (small_roots_ok, Model/SensorsR.v), then RtdScaling.scale returns T. *)
 Theorem rtd_inverts_negative :
   forall (polyroots : list R -> list (R * R)) R0 A B C T I lead w,
-    R0 > 0 -> A > 0 -> B < 0 -> C < 0 -> T < 0 -> I <> 0 ->
-    negative_roots_ok
+    R0 > 0 -> A > 0 -> B < 0 -> C < 0 -> A + B * RTD_ROOT_TOLERANCE >= 0 -> T < 0 -> I <> 0 ->
+    small_roots_ok
       (polyroots (rtd_quartic_coefficients A B C R0 (cvd R0 A B C T)))
       (rtd_quartic_coefficients A B C R0 (cvd R0 A B C T)) ->
     rtd_scale polyroots I R0 A B C lead (wiring_code w)
               (current_excitation_voltage I w lead (cvd R0 A B C T)) = Some T.
 Proof. exact rtd_scale_neg. Qed.
+
+(* The hypothesis  A + B * 1e-9 >= 0  cannot be dropped from the four theorems
+   above: A = 1, B = -10^10, C = -1, R0 = 1 meet the other hypotheses, the
+   resistance 1 - 10^-12 is below R0, and the quartic has a root in [0, 1e-9)
+   (besides its negative one, so two entries would pass the filter). *)
+Theorem rtd_tolerance_condition_cannot_be_dropped :
+  exists x, 0 <= x < RTD_ROOT_TOLERANCE /\ rtd_quartic 1 (-1e10) (-1) 1 (1 - 1e-12) x = 0.
+Proof. exact rtd_tolerance_condition_needed. Qed.
+
+(* What the repair is for.  In exact arithmetic the quartic branch (r_t < R0)
+   never has a root in [0, 1e-9) (theorems above), but for a resistance a few
+   ulp below R0 the floating-point polyroots returns the root near zero as 0.0
+   or as a tiny positive number.  On such an answer - one real entry x with
+   0 <= x < 1e-9, every other entry complex or real and >= 1e-9 - the code
+   returns x, where the code before the repair (filter  r.real < 0.0,
+   rtd_scale_before_repair in Proofs/SensorsProofs.v) raised ValueError. *)
+Theorem rtd_small_root_accepted :
+  forall (polyroots : list R -> list (R * R)) I R0 A B C lead cfg v x l1 l2,
+    rtd_r_t I lead cfg v < R0 ->
+    polyroots (rtd_quartic_coefficients A B C R0 (rtd_r_t I lead cfg v)) = l1 ++ (x, 0) :: l2 ->
+    0 <= x < RTD_ROOT_TOLERANCE ->
+    (forall z, In z (l1 ++ l2) -> snd z <> 0 \/ RTD_ROOT_TOLERANCE <= fst z) ->
+    rtd_scale polyroots I R0 A B C lead cfg v = Some x /\
+    rtd_scale_before_repair polyroots I R0 A B C lead cfg v = None.
+Proof. exact rtd_scale_small_root_accepted. Qed.
+
+(* and the repair changes nothing on an answer with no real entry in [0, 1e-9) *)
+Theorem rtd_repair_conservative :
+  forall roots,
+    (forall z, In z roots -> snd z = 0 -> fst z < 0 \/ RTD_ROOT_TOLERANCE <= fst z) ->
+    get_negative_real_root roots = get_negative_real_root_before_repair roots.
+Proof. exact get_negative_real_root_repair_conservative. Qed.
 
 (* --------------------------------------------------------- Thermistor --- *)
 
@@ -235,6 +302,90 @@ Example c17_rtd_minus_200_root :
                      (cvd 100 3.9083e-3 (-5.775e-7) (-4.183e-12) (-200))))) = 0.
 Proof. apply rtd_negative_T_is_root; lra. Qed.
 
+(* Pt100 meets the tolerance condition; an answer of polyroots for -200 degrees
+   that satisfies small_roots_ok (the negative root, a complex pair and a
+   large positive entry), and the scaling on it *)
+Example c17_rtd_pt100_tolerance_condition : 3.9083e-3 + (-5.775e-7) * RTD_ROOT_TOLERANCE >= 0.
+Proof. unfold RTD_ROOT_TOLERANCE. lra. Qed.
+
+Example c17_rtd_minus_200_oracle :
+  small_roots_ok [(-200, 0); (1e4, 5e3); (1e4, -5e3); (7e4, 0)]
+    (rtd_quartic_coefficients 3.9083e-3 (-5.775e-7) (-4.183e-12) 100
+       (cvd 100 3.9083e-3 (-5.775e-7) (-4.183e-12) (-200))).
+Proof.
+  assert (Etol : RTD_ROOT_TOLERANCE = 1e-9) by reflexivity.
+  split.
+  - assert (F : forall z, is_small_real z = true \/ is_small_real z = false)
+      by (intro z; destruct (is_small_real z); tauto).
+    cbn [filter].
+    destruct (F (-200, 0)) as [E1|E1], (F (1e4, 5e3)) as [E2|E2],
+             (F (1e4, -5e3)) as [E3|E3], (F (7e4, 0)) as [E4|E4];
+      rewrite E1, E2, E3, E4;
+      try (apply is_small_real_true in E2; cbn in E2; lra);
+      try (apply is_small_real_true in E3; cbn in E3; lra);
+      try (apply is_small_real_true in E4; cbn in E4; lra);
+      repeat constructor; cbn; tauto.
+  - intros x Hx. rewrite cvd_eval_neg by lra. split.
+    + intros [E|[E|[E|[E|[]]]]]; inversion E; try lra.
+      apply (rtd_quartic_root 3.9083e-3 (-5.775e-7) (-4.183e-12) 100 (-200)).
+    + intro Ex. left. f_equal. symmetry.
+      apply (rtd_small_root_is_T 3.9083e-3 (-5.775e-7) (-4.183e-12) 100 (-200) x);
+        try lra; exact Ex.
+Qed.
+
+Example c17_rtd_minus_200_inverts :
+  rtd_scale (fun _ => [(-200, 0); (1e4, 5e3); (1e4, -5e3); (7e4, 0)])
+    1e-3 100 3.9083e-3 (-5.775e-7) (-4.183e-12) 0.5 (wiring_code ThreeWire)
+    (current_excitation_voltage 1e-3 ThreeWire 0.5
+       (cvd 100 3.9083e-3 (-5.775e-7) (-4.183e-12) (-200))) = Some (-200).
+Proof.
+  apply rtd_inverts_negative; try (unfold RTD_ROOT_TOLERANCE; lra).
+  exact c17_rtd_minus_200_oracle.
+Qed.
+
+Example c17_rtd_minus_200_small_root : forall x,
+  x < RTD_ROOT_TOLERANCE ->
+  polyval x (rtd_quartic_coefficients 3.9083e-3 (-5.775e-7) (-4.183e-12) 100
+               (rtd_r_t 1e-3 0.5 (wiring_code ThreeWire)
+                  (current_excitation_voltage 1e-3 ThreeWire 0.5
+                     (cvd 100 3.9083e-3 (-5.775e-7) (-4.183e-12) (-200))))) = 0 ->
+  x = -200.
+Proof. intros x Hx. apply rtd_small_root_unique; try (unfold RTD_ROOT_TOLERANCE; lra). exact Hx. Qed.
+
+(* The answer that made the code before the repair raise (D23): the root near
+   zero found as 0.0, no negative entry.  Old filter: nothing passes, None =
+   ValueError; the code: returns 0. *)
+Example rtd_old_filter_refuted :
+  get_negative_real_root_before_repair [(0, 0); (3, 4); (3, -4); (500, 0)] = None /\
+  get_negative_real_root [(0, 0); (3, 4); (3, -4); (500, 0)] = Some 0.
+Proof.
+  assert (Hrest : forall z, In z ([] ++ [(3, 4); (3, -4); (500, 0)]) ->
+                            snd z <> 0 \/ RTD_ROOT_TOLERANCE <= fst z).
+  { intros z [E|[E|[E|[]]]]; subst z; cbn [fst snd]; unfold RTD_ROOT_TOLERANCE;
+      [left; lra | left; lra | right; lra]. }
+  split.
+  - apply (get_negative_real_root_before_repair_rejects [] _ 0); [lra | exact Hrest].
+  - apply (get_negative_real_root_small_accepted [] _ 0);
+      [unfold RTD_ROOT_TOLERANCE; lra | exact Hrest].
+Qed.
+
+(* the same through RtdScaling.scale: a Pt100 read at 99.9999 ohm, polyroots
+   answering with a root 2^-60 *)
+Example c17_rtd_small_root_accepted :
+  let pr := fun _ : list R => [(3, 4); (0x1p-60, 0); (3, -4); (500, 0)] in
+  rtd_scale pr 1e-3 100 3.9083e-3 (-5.775e-7) (-4.183e-12) 0 4 0.0999999 = Some 0x1p-60 /\
+  rtd_scale_before_repair pr 1e-3 100 3.9083e-3 (-5.775e-7) (-4.183e-12) 0 4 0.0999999 = None.
+Proof.
+  intro pr.
+  apply (rtd_small_root_accepted pr 1e-3 100 3.9083e-3 (-5.775e-7) (-4.183e-12) 0 4%Z 0.0999999
+           0x1p-60 [(3, 4)] [(3, -4); (500, 0)]).
+  - cbv [rtd_r_t adjust_for_lead_resistance Z.eqb Pos.eqb andb CURRENT_EXCITATION]. lra.
+  - reflexivity.
+  - unfold RTD_ROOT_TOLERANCE. lra.
+  - intros z [E|[E|[E|[]]]]; subst z; cbn [fst snd]; unfold RTD_ROOT_TOLERANCE;
+      [left; lra | left; lra | right; lra].
+Qed.
+
 (* the thermistor of nptdms/test/test_scaling.py at 25 degrees Celsius *)
 Example c17_thermistor_current :
   thermistor_scale CURRENT_EXCITATION 1e-3 (wiring_code TwoWire) 0 100
@@ -306,7 +457,13 @@ Print Assumptions rtd_negative_T_is_root.
 Print Assumptions rtd_quartic_strictly_increasing.
 Print Assumptions rtd_quartic_negative_roots_simple.
 Print Assumptions rtd_negative_root_unique.
+Print Assumptions rtd_no_root_near_zero.
+Print Assumptions rtd_quartic_positive_near_zero.
+Print Assumptions rtd_small_root_unique.
 Print Assumptions rtd_inverts_negative.
+Print Assumptions rtd_tolerance_condition_cannot_be_dropped.
+Print Assumptions rtd_small_root_accepted.
+Print Assumptions rtd_repair_conservative.
 Print Assumptions steinhart_hart_resistance.
 Print Assumptions thermistor_inverts_current_excitation.
 Print Assumptions thermistor_inverts_voltage_excitation.
